@@ -337,13 +337,19 @@ def _write_sources(f, flow, field):
         if n.is_call() and n.callee:
             qn = n.callee.get("qn", "")
             args = n.call_args()
-            if qn in ("memcpy", "memmove", "std::memcpy", "std::memmove", "std::copy", "std::copy_n", "std::fill", "memset", "std::memset") and args:
-                dst = args[-1] if qn in ("std::copy", "std::copy_n") else args[0]
+            if qn in ("memcpy", "memmove", "std::memcpy", "std::memmove", "std::copy", "std::copy_n", "std::copy_backward", "std::move",
+                      "std::move_backward", "std::transform", "std::fill", "std::fill_n", "memset", "std::memset") and args:
+                dst = args[-1] if qn in ("std::copy", "std::copy_n", "std::copy_backward", "std::move", "std::move_backward", "std::transform") else args[0]
                 if any(r == ("this", field) for r in flow.root(dst)):
                     deps = set()
                     for a in args:
                         if a.id != dst.id:
                             deps |= flow.deps(a)
+                    d0 = dst.strip_all()
+                    if (d0.k == "BinaryOperator" and d0.op in ("+", "-")) or (d0.k == "CXXOperatorCallExpr" and d0.op in ("+", "-")) \
+                            or qn in ("std::copy_backward", "std::move_backward"):
+                        # written from an offset inside the array: the elements in front of it keep their previous values
+                        deps |= {("this", field, "content")}
                     if qn in ("memmove", "std::memmove"):
                         pass
                     out.append((n, deps))
